@@ -54,7 +54,9 @@ func (m *TPtr) MarshalText() ([]byte, error) {
 // MBoth implements both; MarshalJSON must win.
 type MBoth struct{ S string }
 
-func (m MBoth) MarshalJSON() ([]byte, error) { return []byte(`{"both":` + strconv.Quote(m.S) + `}`), nil }
+func (m MBoth) MarshalJSON() ([]byte, error) {
+	return []byte(`{"both":` + strconv.Quote(m.S) + `}`), nil
+}
 func (m MBoth) MarshalText() ([]byte, error) { return []byte("text:" + m.S), nil }
 
 // MRaw returns its content verbatim: the output of a MarshalJSON method is
@@ -262,9 +264,9 @@ type Wide struct {
 	F00, F01, F02, F03, F04, F05, F06, F07, F08, F09 int
 	F10, F11, F12, F13, F14, F15, F16, F17, F18, F19 string
 	F20, F21, F22, F23, F24, F25, F26, F27, F28, F29 *int
-	F30                                             []int `json:"f30,omitempty"`
-	F31                                             bool  `json:"F31,string"`
-	F32                                             any   `json:"last"`
+	F30                                              []int `json:"f30,omitempty"`
+	F31                                              bool  `json:"F31,string"`
+	F32                                              any   `json:"last"`
 }
 
 // Corpus maps names (TypeDesc.K = "@name") to types.
